@@ -37,6 +37,8 @@ var c16SourceFaults = map[string][]string{
 	// directive lines that no directive pattern accepts: they must not end up as literal text of the regex
 	"malformed-directive": {"##!> include inc1 @ ~", "##!> define sep a b", "##!> define na.me x", "##!> include-except", "##!> include-except inc1", "##!> include", "##!> define x", "##!> define",
 		"##!> include  inc1 extra", "##!> cmdline unix windows", "##!> assemble x", "##!> include inc1 -"},
+	// prefix / suffix lines that make the joined expression malformed around well-formed entries
+	"malformed-affix":          {"##!$ )", "##!^ (foo", "##!$ a)", "##!^ (?i", "##!$ \\", "##!^ [a-", "##!^ (", "##!$ ]x[", "##!^ x{2,1}"},
 	"missing-include-absolute": {"##!> include /nonexistent/dir/birds", "##!> include-except /nonexistent/a exc1", "##!> include-except inc1 /nonexistent/x", "##!> include /nonexistent/dir/birds.ra", "##!> include /nonexistent/dir/birds -- a b"},
 }
 
